@@ -547,7 +547,13 @@ impl Proof {
         let mut i = crate::leaf_index_to_tree_index(*leaf_index);
         let mut acc = leaf_hash;
         for sibling in audit_path.chunks(32) {
-            let parent = crate::complete_parent(i, tree_size.get());
+            let Some(parent) = crate::checked_complete_parent(i, tree_size.get()) else {
+                // The audit path is longer than the path from the leaf to the root of a tree of
+                // this size. Keep folding the surplus hashes into the accumulator so that the
+                // result differs from the root reached so far instead of walking out of the tree.
+                acc = crate::combine(&acc, sibling);
+                continue;
+            };
             if parent > i {
                 acc = crate::combine(&acc, sibling);
             } else {
